@@ -637,11 +637,12 @@ bool Interpret::getAssignment() const {
     std::ostringstream ss;
     auto const & termNames = solver.getTermNames();
     ss << '(';
+    bool first = true;
     for (auto const & [name, term] : termNames) {
         lbool val = solver.getTermValue(term);
-        ss << '(' << name << ' ' << (val == l_True ? "true" : (val == l_False ? "false" : "unknown")) << ')' << " ";
+        ss << (first ? "" : " ") << '(' << name << ' ' << (val == l_True ? "true" : (val == l_False ? "false" : "unknown")) << ')';
+        first = false;
     }
-    ss.seekp(-1, std::ios::cur);
     ss << ')';
     notify_formatted(false, ss.str().c_str());
     return true;
